@@ -153,7 +153,7 @@ func main() {
 		select {
 		case r := <-ch:
 			fmt.Fprintln(w, r)
-		case <-time.After(20 * time.Second):
+		case <-time.After(8 * time.Second):
 			fmt.Fprintln(w, "TIMEOUT")
 			w.Flush()
 			os.Exit(3)
